@@ -278,9 +278,18 @@ def indexed_arm_outcomes(stmts, acc: str, mvar: str, datav: str):
             z = zeros(grow, st)
             if z is None:
                 raise _ArmGiveUp(f"register grown by `{u(grow)}`")
-            st.length = st.length + z
-            st.fills.append("0")
-            return run(rest, st)
+            # ["0"] * z has max(0, z) elements: a count that may be negative splits the state
+            out = []
+            pos, neg_ = st.copy(), st.copy()
+            pos.cons.append(z)
+            if not infeasible(pos.cons):
+                pos.length = pos.length + z
+                pos.fills.append("0")
+                out += run(rest, pos)
+            neg_.cons.append(-z - 1)
+            if not infeasible(neg_.cons):
+                out += run(rest, neg_)
+            return out
         if isinstance(s, ast.Expr) and isinstance(s.value, ast.Constant):
             return run(rest, st)
         raise _ArmGiveUp(f"statement `{u(s)[:80]}`")
@@ -372,7 +381,8 @@ def r4_write_semantics(ctx, m, shot, lp) -> None:
                 ok_c = False
                 why = why or f"a register created by an indexed write gets length {f.length}, not n + 1"
         else:
-            if implies(f.cons, n_ - L_, nonneg=("n", "L")):
+            # the register must end with length max(L, n + 1)
+            if implies(f.cons, n_ - L_ + 1, nonneg=("n", "L")):
                 good = f.length == n_ + 1
             elif implies(f.cons, L_ - n_ - 1, nonneg=("n", "L")):
                 good = f.length == L_
